@@ -614,9 +614,9 @@ def judge(x, specs):
         if i not in meta:
             probs.append('stray file(s) %s' % where[i])
     if nerr and r.status == 0:
-        probs.append('exit status 0 although %d message(s) could not be evaluated' % nerr)
+        probs.insert(0, 'exit status 0 although %d message(s) could not be evaluated' % nerr)
     if not nerr and not unjudged and r.status != 0:
-        probs.append('exit status %r although every message can be evaluated and every action carried out: %s'
+        probs.insert(0, 'exit status %r although every message can be evaluated and every action carried out: %s'
                      % (r.status, r.err[-300:].decode('latin-1')))
     if r.status not in (0, 1):
         probs.append('exit status %r' % (r.status,))
